@@ -22,6 +22,21 @@ CLAIMED = {
  "C14": dict(text=GEN + "Partial: civil weeks — acceptance, week count, first day, start weekday, coverage, seven consecutive days, week-of-date — for every month/date, every start weekday, one job per weekday of the 1st of the month. Not covered: stepping a week by n, index in year, lunar weeks.",
              note="Assumes: day counts relative to the month's 1st (sums of month lengths; discharged by C01) with one concrete representative day count per weekday; small-step SolarDay::next closed form (lemma 14.L); index_of as 32-bit arithmetic (engine B).",
              technique=BMC),
+ "C19": dict(text=GEN + "Stem / branch / pillar / star attribute tables are decided over their whole finite domains (symbolic index, Kani) against first-principles encodings written from the classical rules; the eight-character derived signs over all pillar combinations by engine B. Not covered: name-string lookups, Peng Zu texts, 28-mansion land/luck and foetus tables.",
+             note="Assumes: index_of as 32-bit arithmetic (engine B); the oracle tables in harness/src/c19.rs; engine-B object-model axioms (A-index, A-pillar, A-name, A-format) each discharged by another obligation or stated as trusted.",
+             technique=BMC + " + " + ENGB),
+ "C07": dict(text=GEN + "Partial: weekday = (floor(JD+0.5)+1) mod 7 for every Julian date (Kani); day pillar = (day number + 49) mod 60 on the lunar-date route for every month start and day (engine B over the real index arithmetic, names via an axiomatised object model). Not covered: agreement of the three routes to the pillar (they run the solar->lunar walk over real month data).",
+             note="Assumes: LunarMonth::get_first_julian_day arbitrary (ENV-A); object-model axioms A-index, A-name (lemma T60 + trusted first-match search), A-format, A-jd; +1 per civil day composes with C01 01.c on paper.",
+             technique=ENGB + " + " + BMC),
+ "C08": dict(text=GEN + "Partial: year pillar index (y-4) mod 60; month pillars obey the Five-Tigers rule on every route that builds them by index (lunar month, first month of a sexagenary year, sexagenary month stepping incl. the year carry), all years, engine B. Not covered: WHEN the pillars switch (Lichun / Jie days and instants) and the instant-level view.",
+             note="Assumes: object-model axioms A-index, A-pillar, A-name, A-format; struct invariants (index in year 0..12).",
+             technique=ENGB),
+ "C09": dict(text=GEN + "Partial: hour branch, Five-Rats stem and the 23:00 roll-over on the lunar-hour route for all 60 day pillars x 24 hours (engine B); refusal of invalid clock fields (Kani). Not covered: the instant-level view, the eight-character composition, the inverse search.",
+             note="Assumes: the day pillar is an arbitrary pillar here (its value is C07 07.c); object-model axioms A-index, A-pillar, A-name, A-format.",
+             technique=ENGB + " + " + BMC),
+ "C17": dict(text=GEN + "Partial: six-day star incl. leap months, moon phase, minor Ren, month nine star, 28 mansions (+1 per day, luminary = weekday), day officer, Yellow/Black-path spirits for days and hours — engine B over the real index arithmetic for all inputs. Not covered: flying nine star of year / day / hour.",
+             note="Assumes: object-model axioms A-index, A-pillar; weekday and day pillar as functions of the day number from C07.",
+             technique=ENGB),
 }
 NA = {
  "C04": "relates the decoded leap table to evaluated new-moon and solar-term series: HashMap decode + sin/cos float series cannot be encoded; with the year concrete nothing symbolic remains (DESIGN §6)",
@@ -47,7 +62,7 @@ m = {"version": 1, "setup_cmd": "./setup.sh",
      "hooks": {"guard": "tyme4rs_verif", "enable": "none needed: harnesses live in /verif/harness (path dependency on /repo); no source hooks are compiled in",
                "baseline_off_cmd": "cd /repo && cargo test --workspace --no-fail-fast --offline", "source_commits": [], "add_only": True},
      "engines": [{"name": "kani-harness", "path": "/verif/harness", "serves_properties": list(CLAIMED), "kind_free_text": "engine A: Kani 0.68 / CBMC 6.11 / CaDiCaL bounded model checking of the compiled crate; wrappers generated per run by verifkit/kani.py"},
-                 {"name": "mir2smt", "path": "/verif/mir2smt", "serves_properties": ["C11", "C12"], "kind_free_text": "engine B: nightly rustc MIR of loop-free integer kernels translated to integer SMT-LIB, decided by z3 and cvc5 (both must agree), translator validated against the native functions on every run"}],
+                 {"name": "mir2smt", "path": "/verif/mir2smt", "serves_properties": ["C07", "C08", "C09", "C11", "C12", "C17", "C19"], "kind_free_text": "engine B: nightly rustc MIR of loop-free integer kernels translated to integer SMT-LIB, decided by z3 and cvc5 (both must agree), translator validated against the native functions on every run"}],
      "checks": checks, "not_applicable": na,
      "notes": "Every check rebuilds from /repo's working tree in a scratch directory under /tmp that it removes on exit. Genuine defects repaired by fix: commits are listed in known_findings.json (status fixed)."}
 json.dump(m, open('/verif/MANIFEST.json', 'w'), indent=1)
